@@ -518,6 +518,7 @@ PREDICATES = {
     'none_obj': lambda x: x is None,
     'int_leaf': lambda x: type(x) is int,
     'holds_one_int': lambda x: _holds_one_int(x),
+    'is_list': lambda x: type(x) is list,
     # a marker value that *would* be traversed (a 3-tuple) unless the predicate is forwarded to every internal flatten
     'marker3': lambda x: type(x) is tuple and len(x) == 3 and x[0] == '\u00a7',
 }
